@@ -236,7 +236,14 @@ def run(ctx) -> None:
             rep.violate("C13.R4", aexit, aexit.node, "__aexit__ does not check for child contexts that are still open")
         else:
             t = tests[0]
-            side = [d for d, lab in t.succ if lab == "t"]
+            # the side on which children are left: `if children:` -> true side,
+            # `if not children:` / `if len(children) == 0:` -> false side
+            e_, left_lab = t.ast, "t"
+            while isinstance(e_, ast.UnaryOp) and isinstance(e_.op, ast.Not):
+                e_, left_lab = e_.operand, ("f" if left_lab == "t" else "t")
+            if isinstance(e_, ast.Compare) and len(e_.ops) == 1 and isinstance(e_.comparators[0], ast.Constant) and e_.comparators[0].value == 0 and isinstance(e_.ops[0], (ast.Eq, ast.LtE)):
+                left_lab = "f" if left_lab == "t" else "t"
+            side = [d for d, lab in t.succ if lab == left_lab]
             # on the "children left" side every (non-exceptional) path ends in a raise of RuntimeError
             region = xcfg.reach(side, avoid=[t.id], edge_ok=lambda s_, d_, lab: lab not in ("e", "h")) if side else set()
             rraises = [xcfg.nodes[i] for i in sorted(region) if xcfg.nodes[i].kind == "stmt" and isinstance(xcfg.nodes[i].ast, ast.Raise)]
@@ -258,6 +265,12 @@ def run(ctx) -> None:
         target = an.ctx_method(op) if op in an.Context.methods else None
         calls = [c for c, cal in a.func_calls(w) if cal.kind == "func" and cal.func is an.Context.methods.get(op)]
         rep.check("C13.R5", bool(calls), w, w.node, f"ComponentContext.{op} goes through the guarded Context.{op}", f"ComponentContext.{op} does not call the guarded Context.{op}")
+    # ... on every path (no fast path that answers from the wrapped context's tables without
+    # passing its guard): C02.R4
+    from .common import include_rules as _inc13
+
+    _inc13(ctx, "c02", "C13.R5", only=("C02.R4",))
+
     # ------------------------------------------------------------------ R6 the guard is the only lifecycle gate
     # The matrix above is decided by the guard calls alone only if nothing else refuses an
     # operation because of the lifecycle state: a raise controlled by a test that reads the
